@@ -46,7 +46,7 @@ func newMemBackend(ac bool) *memBackend {
 }
 
 func keyOf(d digest.Digest) string {
-	return d.GetKey(digest.KeyWithoutInstance)
+	return fmt.Sprintf("%s-%d", d.GetHashString(), d.GetSizeBytes())
 }
 
 func (b *memBackend) Get(ctx context.Context, d digest.Digest) buffer.Buffer {
@@ -220,12 +220,21 @@ func errTag(err error) string {
 		{"Unsupported compression scheme", "compressor"},
 		{"Attempted to read a total of at least", "batch-size"},
 		{"Invalid instance name", "instance"},
+		{"Invalid resource naming scheme", "name"},
+		{"Unsupported digest function", "name"},
+		{"Invalid blob size", "name"},
+		{"Unknown digest function", "function"},
+		{"Hash has length", "digest"},
+		{"Non-hexadecimal character", "digest"},
+		{"Invalid digest size", "digest"},
+		{"No digest provided", "digest"},
 		{"Buffer is at least", "toobig"},
 		{"while a read at offset", "offset"},
 		{"while a maximum of", "toolarge"},
 		{"bytes were expected", "size"},
 		{"Negative read offset", "offset"},
 		{"Buffer has checksum", "hash"},
+		{"Source ended unexpectedly", "truncated"},
 		{"Object not found", "notfound"},
 		{"Failed to unmarshal", "unmarshal"},
 	} {
